@@ -22,7 +22,7 @@ def _strict(x):
 def _chains(cases, tier, spec):
     """chains of three different cases to be run in one process each"""
     k = spec.get(tier, 0) if isinstance(spec, dict) else int(spec)
-    plain = [c for c in cases if isinstance(c, dict) and c.get("kind") not in ("repo_suite", "asset")
+    plain = [c for c in cases if isinstance(c, dict) and c.get("kind") not in ("repo_suite", "asset", "huge", "long_mismatch")
              and "asset" not in c]
     n = len(plain)
     k = min(k, n // 3)
